@@ -24,6 +24,10 @@ def sh(cmd, cwd=None, env=None, timeout=1800):
     return subprocess.run(cmd, cwd=cwd, env=env, capture_output=True, text=True, timeout=timeout)
 
 
+RENAME = dict(x.split(":") for x in os.environ.get("SEED_RENAME", "A:A,B:B").split(","))   # e.g. SEED_RENAME=A:C,B:D for a second round
+ROUND = os.environ.get("SEED_ROUND", "1")
+
+
 def evaluate(prop, letter):
     d = os.path.join(SRC, prop)
     patch = os.path.join(d, f"seed_{letter}.diff")
@@ -58,7 +62,7 @@ def evaluate(prop, letter):
         sh(["git", "-C", "/repo", "worktree", "remove", "--force", wt])
         shutil.rmtree(tmp, ignore_errors=True)
     if res.get("status") == "confirmed":
-        out = os.path.join(VERIF, "seeded", f"{prop}-{letter}")
+        out = os.path.join(VERIF, "seeded", f"{prop}-{RENAME[letter]}")
         os.makedirs(out, exist_ok=True)
         shutil.copy(patch, os.path.join(out, "patch.diff"))
         shutil.copy(demo, os.path.join(out, "demo.py"))
@@ -67,7 +71,8 @@ def evaluate(prop, letter):
             shutil.copy(notes, os.path.join(out, "agent-notes.md"))
         meta_path = os.path.join(out, "meta.json")
         meta = json.load(open(meta_path)) if os.path.exists(meta_path) else {}
-        meta.update({"id": f"{prop}-{letter}", "property": prop, "origin": "independent sub-agent given only the property text and a scratch worktree",
+        meta.update({"id": f"{prop}-{RENAME[letter]}", "property": prop, "round": int(ROUND),
+                     "origin": "independent sub-agent given only the property text and a scratch worktree" + (" (second round: told which two mechanisms of round 1 to avoid)" if ROUND != "1" else ""),
                      "confirmed": {"demo_on_clean_tree_rc": res["demo_clean_rc"], "demo_with_patch_rc": res["demo_seeded_rc"], "repo_tests_with_patch": res["tests"],
                                    "how": "tools/seedeval.py: fresh worktree of /repo HEAD under /tmp; demo run with PYTHONPATH=<worktree>/src; pytest -q -p no:cacheprovider --timeout=900"}})
         json.dump(meta, open(meta_path, "w"), indent=1)
